@@ -61,10 +61,12 @@ def runC14 (op : String) (j : Json) : R Json := do
                       ("clusters_amps", jList (jOpt jRat) e.clustersAmps),
                       ("clusters_waveforms", jList (jOpt jRatMat) e.clustersWaveforms)])
   | "ptt" =>
-    let wfs ← getRat3 j "wfs"; let rate ← getRat j "rate"; let sc ← getNats j "spike_clusters"
-    let nan := spikelessIds wfs.length sc
+    let wfs ← getRat3 j "wfs"; let rate ← getRat j "rate"
+    let sc ← getNats j "spike_clusters"; let st ← getNats j "spike_templates"
+    -- model.nan_idx is COMPUTED (C08 model on the stored assignments), never handed in
+    let nan := modelNanIdx st sc
     pure (Json.mkObj [("peak", jNats (peakChannels wfs)),
-                      ("ptt", jList (jOpt jRat) (exportDurations wfs rate sc)),
+                      ("ptt", jList (jOpt jRat) (exportDurations wfs rate st sc)),
                       -- harness aids for floating-point cluster waveforms (see Driver/C09 `nearPeaks`): admissible peak
                       -- channels, and the NaN-masked duration measured on every channel
                       ("near_peaks", jList jNats (wfs.map nearPeaks)),
